@@ -33,6 +33,8 @@ const (
 	PReceiverStall
 	PSenderReconnected
 	PPrelude
+	PHeaderLikePayload
+	PDuplexPause
 )
 
 var ProbeNames = map[int]string{
@@ -52,6 +54,8 @@ var ProbeNames = map[int]string{
 	PReceiverStall:          "receiver_not_reading_for_seconds_while_several_senders_send",
 	PSenderReconnected:      "sender_opened_a_further_connection_on_its_own",
 	PPrelude:                "other_transports_connected_and_closed_twice_before_the_run",
+	PHeaderLikePayload:      "payloads_that_begin_like_a_session_header",
+	PDuplexPause:            "duplex_one_direction_silent_for_12s_or_45s",
 }
 
 const maxLen = 0x1FFFF
@@ -113,6 +117,8 @@ type plan struct {
 	segMode   int // -1 from the choice stream, 0 whole, 1 byte by byte
 	window    int
 	quiet     bool
+	hdrLike   bool  // payloads begin with four bytes that read as a session header announcing the rest of the payload
+	dupPause  int64 // duplex: the second transport's sender waits this long before its first frame (12 s / 45 s)
 	prelude   bool  // before the run proper, two other transports are connected and closed, one of them twice
 	sliced    bool  // the sender's payloads are adjacent sub-slices of one buffer (spare capacity behind each of them)
 	recvStall int64 // several senders: the receiver does not read for this long at first (the window fills up)
@@ -226,6 +232,8 @@ func genPlan(o hx.Opts) *plan {
 			}
 		}
 	}
+	p.hdrLike = hx.G(5) == 0
+	p.dupPause = [...]int64{0, 0, 0, 12e9, 45e9}[hx.G(5)]
 	p.prelude = hx.G(4) == 0
 	p.sliced = hx.G(4) == 0
 	p.recvStall = [...]int64{0, 0, 3e9, 10e9}[hx.G(4)]
@@ -543,6 +551,15 @@ func Run(seed uint64, index int64, o hx.Opts) *hx.Result {
 			case l == 0:
 				rt.Probe(PEmptyPayload)
 			}
+		}
+		if pl.hdrLike {
+			// payloads are opaque: one that happens to begin like a session header is a payload like any other
+			for _, p := range frames {
+				if n := len(p) - 4; n >= 0 {
+					p[0], p[1], p[2], p[3] = 0, byte(n>>16)&1, byte(n>>8), byte(n)
+				}
+			}
+			rt.Probe(PHeaderLikePayload)
 		}
 		// wire image of the legal frames and frame boundaries
 		var legal [][]byte
@@ -968,6 +985,11 @@ func Run(seed uint64, index int64, o hx.Opts) *hx.Result {
 				}),
 				rt.GoHarness("b-receiver", "", func() { recvs = receiveAll(b, len(legal), false) }),
 				rt.GoHarness("b-sender", "", func() {
+					if pl.dupPause > 0 {
+						// a's sender is long done while a's receiver keeps waiting for this side's first frame
+						rt.Probe(PDuplexPause)
+						rt.SleepUntil(rt.Now() + pl.dupPause)
+					}
 					for _, p := range sendable(frames2) {
 						n, err := b.Send(p)
 						sends2 = append(sends2, sendRes{n, err})
@@ -1047,6 +1069,12 @@ func Run(seed uint64, index int64, o hx.Opts) *hx.Result {
 	}
 	if pl.sliced {
 		desc += " payloads=adjacent-subslices-of-one-buffer"
+	}
+	if pl.hdrLike {
+		desc += " payloads-begin-like-a-session-header"
+	}
+	if pl.dupPause > 0 && pl.wiring == WireDuplex {
+		desc += fmt.Sprintf(" reverse-direction-silent-for=%ds", pl.dupPause/1e9)
 	}
 	if pl.recvStall > 0 && pl.wiring == WireMulti {
 		desc += fmt.Sprintf(" receiver-starts-reading-after=%ds", pl.recvStall/1e9)
